@@ -58,7 +58,8 @@ Definition reader_value (r : raw) (c : consumed) (dev : device) (i : input) : va
       if memdz dev b (c_pbuttons c) then bval false
       else match dev with
            | None => bval (existsb (fun p => memz b (pad_buttons p)) (r_pads r))
-           | Some id => bval (existsb (fun p => Z.eqb (pad_id p) id && memz b (pad_buttons p)) (r_pads r))
+           | Some id => bval (match find (fun p => Z.eqb (pad_id p) id) (r_pads r) with
+                              | Some p => memz b (pad_buttons p) | None => false end)
            end
   | IPadAxis a =>
       if memdz dev a (c_paxes c) then V1 0
